@@ -1493,6 +1493,8 @@ class Engine(ExprEval, NumpyModel, NumpyFuncs):
             return z3.Const(name, {"int": z3.IntSort(), "real": z3.RealSort(), "bool": z3.BoolSort()}[b])
         if b == "none":
             return NONE
+        if b == "nanreal":      # a float that may be nan
+            return OptV(z3.Bool(fresh_name(name + "_isnan")), z3.Real(fresh_name(name)), nanlike=True)
         if b == "opt":
             return OptV(z3.Bool(fresh_name(name + "_isnone")), self.make_value(st, ts.elem, name, scope))
         if b == "str":
